@@ -80,6 +80,7 @@ type State struct {
 	stubCalls int
 	lastNow   []*Term
 	lockCounts map[string]int
+	gfs       *ghostFS
 	imprecise bool
 	unwind  int
 	splitLimit int
@@ -184,6 +185,9 @@ func (st *State) clone() *State {
 	n.choicePos = st.choicePos
 	n.stubCalls = st.stubCalls
 	n.lastNow = st.lastNow
+	if st.gfs != nil {
+		n.gfs = st.gfs.clone()
+	}
 	if st.lockCounts != nil {
 		n.lockCounts = make(map[string]int, len(st.lockCounts))
 		for k, v := range st.lockCounts {
